@@ -66,15 +66,21 @@ theorem dims_ne_of_ne (f : Fld) (hd : DimsOk f) (a b : Nat) (ha : a < f.mesh.ndi
 /-- `periodic` in list form: some character of `bc` is the whole axis name -/
 def perL (bc d : String) : Bool := bc.toList.any fun ch => decide ([ch] = d.toList)
 
-theorem periodic_eq_perL (f : Fld) (ax : Nat) : periodic f ax = perL f.mesh.bc (f.mesh.region.dims.getD ax "") := by
-  unfold periodic perL
-  congr 1
+/-- `bc` is one of the two words that name a non-periodic boundary condition -/
+def isWord (bc : String) : Bool := bc == "neumann" || bc == "dirichlet"
+
+theorem periodicBc_eq_perL (bc d : String) : C04.periodicBc bc d = (!(isWord bc) && perL bc d) := by
+  unfold C04.periodicBc perL isWord
+  congr 2
   funext ch
-  have : (String.singleton ch == f.mesh.region.dims.getD ax "") = decide ([ch] = (f.mesh.region.dims.getD ax "").toList) := by
-    rw [Bool.eq_iff_iff]
-    simp only [beq_iff_eq, decide_eq_true_eq]
-    rw [← String.toList_inj, String.toList_singleton]
-  exact this
+  rw [Bool.eq_iff_iff]
+  simp only [beq_iff_eq, decide_eq_true_eq]
+  rw [← String.toList_inj, String.toList_singleton]
+
+/-- since repo fix 61bf94db: periodic = `bc` is no word and one of its characters is the whole axis name -/
+theorem periodic_eq_perL (f : Fld) (ax : Nat) :
+    periodic f ax = (!(isWord f.mesh.bc) && perL f.mesh.bc (f.mesh.region.dims.getD ax "")) :=
+  periodicBc_eq_perL _ _
 
 theorem swapChar_spec (da db : String) (ca cb : Char) (ha : da.toList = [ca]) (hb : db.toList = [cb]) (c : Char) :
     swapChar da db c = if c = ca then cb else if c = cb then ca else c := by
@@ -134,21 +140,137 @@ theorem single_of_length (s : String) (h : s.toList.length = 1) : ∃ c, s.toLis
   match hq : s.toList, h with
   | [c], _ => exact ⟨c, rfl⟩
 
-/-- periodicity after the turn: the two axes of the plane exchange it, every other axis keeps it -/
-theorem periodic_turn (f R : Fld) (a b : Nat) (hd : DimsOk f) (ha : a < f.mesh.ndim) (hb : b < f.mesh.ndim)
+theorem swapChar_invol (da db : String) (ca cb : Char) (ha : da.toList = [ca]) (hb : db.toList = [cb]) (c : Char) :
+    swapChar da db (swapChar da db c) = c := by
+  rw [swapChar_spec da db ca cb ha hb, swapChar_spec da db ca cb ha hb]
+  by_cases h1 : c = ca
+  · subst h1
+    by_cases h3 : cb = c
+    · simp [h3]
+    · simp [h3]
+  · by_cases h2 : c = cb
+    · subst h2; simp [h1]
+    · simp [h1, h2]
+
+theorem map_swapChar_invol (da db : String) (ca cb : Char) (ha : da.toList = [ca]) (hb : db.toList = [cb]) (l : List Char) :
+    (l.map (swapChar da db)).map (swapChar da db) = l := by
+  rw [List.map_map]
+  conv_rhs => rw [← List.map_id l]
+  apply List.map_congr_left
+  intro c _
+  exact swapChar_invol da db ca cb ha hb c
+
+theorem filter_two (a b c : List Char) (x : Char) : 2 ≤ ((a ++ x :: b ++ x :: c).filter (· = x)).length := by
+  simp [List.filter_append, List.filter_cons]; omega
+
+/-- a string in which every character occurs once is neither of the two words, however its
+characters are renamed -/
+theorem not_word_of_distinct (l : List Char) (φ : Char → Char)
+    (hall : ∀ c ∈ l, (l.filter (· = c)).length = 1) :
+    l ≠ ("neumann".toList).map φ ∧ l ≠ ("dirichlet".toList).map φ := by
+  constructor
+  · intro h
+    have e : ("neumann".toList).map φ = [] ++ φ 'n' :: [φ 'e', φ 'u', φ 'm', φ 'a'] ++ φ 'n' :: [φ 'n'] := by
+      have : "neumann".toList = ['n', 'e', 'u', 'm', 'a', 'n', 'n'] := by decide
+      rw [this]; rfl
+    rw [e] at h
+    have h1 := hall (φ 'n') (by rw [h]; simp)
+    have h2 := filter_two [] [φ 'e', φ 'u', φ 'm', φ 'a'] [φ 'n'] (φ 'n')
+    rw [← h] at h2
+    omega
+  · intro h
+    have e : ("dirichlet".toList).map φ = [φ 'd'] ++ φ 'i' :: [φ 'r'] ++ φ 'i' :: [φ 'c', φ 'h', φ 'l', φ 'e', φ 't'] := by
+      have : "dirichlet".toList = ['d', 'i', 'r', 'i', 'c', 'h', 'l', 'e', 't'] := by decide
+      rw [this]; rfl
+    rw [e] at h
+    have h1 := hall (φ 'i') (by rw [h]; simp)
+    have h2 := filter_two [φ 'd'] [φ 'r'] [φ 'c', φ 'h', φ 'l', φ 'e', φ 't'] (φ 'i')
+    rw [← h] at h2
+    omega
+
+/-- the condition under which `Mesh.rotate90` exchanges the two axis names in `bc` (odd `k`) -/
+def swapCond (bc da db : String) : Bool :=
+  !(bc == "neumann" || bc == "dirichlet" || bc == "") && da.toList.length == 1 && db.toList.length == 1
+    && da == da.toLower && db == db.toLower
+
+theorem rotBc1_swap (bc da db : String) (h : swapCond bc da db = true) :
+    rotBc1 bc da db = String.ofList (bc.toList.map (swapChar da db)) := by
+  unfold rotBc1; unfold swapCond at h; rw [if_pos h]
+
+theorem rotBc1_noswap (bc da db : String) (h : ¬ swapCond bc da db = true) : rotBc1 bc da db = bc := by
+  unfold rotBc1; unfold swapCond at h; rw [if_neg h]
+
+theorem swapCond_parts {bc da db : String} (h : swapCond bc da db = true) :
+    bc ≠ "neumann" ∧ bc ≠ "dirichlet" ∧ bc ≠ "" ∧ da.toList.length = 1 ∧ db.toList.length = 1 ∧
+    da.toLower = da ∧ db.toLower = db := by
+  unfold swapCond at h
+  simp only [Bool.and_eq_true, Bool.not_eq_true', Bool.or_eq_false_iff, beq_eq_false_iff_ne, beq_iff_eq, ne_eq] at h
+  obtain ⟨⟨⟨⟨⟨⟨w1, w2⟩, w3⟩, s1⟩, s2⟩, l1⟩, l2⟩ := h
+  exact ⟨w1, w2, w3, s1, s2, l1.symm, l2.symm⟩
+
+theorem swapCond_of {bc da db : String} (w1 : bc ≠ "neumann") (w2 : bc ≠ "dirichlet") (w3 : bc ≠ "")
+    (s1 : da.toList.length = 1) (s2 : db.toList.length = 1) (l1 : da.toLower = da) (l2 : db.toLower = db) :
+    swapCond bc da db = true := by
+  unfold swapCond
+  simp only [Bool.and_eq_true, Bool.not_eq_true', Bool.or_eq_false_iff, beq_eq_false_iff_ne, beq_iff_eq, ne_eq]
+  exact ⟨⟨⟨⟨⟨⟨w1, w2⟩, w3⟩, s1⟩, s2⟩, l1.symm⟩, l2.symm⟩
+
+/-- a `bc` the mesh accepts and that is exchanged stays none of the two words -/
+theorem swapped_not_word (dims : List String) (bc da db : String) (hok : Mesh.bcOk dims bc = true)
+    (h : swapCond bc da db = true) : isWord (String.ofList (bc.toList.map (swapChar da db))) = false := by
+  obtain ⟨w1, w2, w3, s1, s2, _, _⟩ := swapCond_parts h
+  obtain ⟨ca, hca⟩ := single_of_length _ s1
+  obtain ⟨cb, hcb⟩ := single_of_length _ s2
+  have hall : ∀ c ∈ bc.toList, (bc.toList.filter (· = c)).length = 1 := by
+    unfold Mesh.bcOk at hok
+    simp only [Bool.or_eq_true, decide_eq_true_eq, w1, w2, w3, false_or, List.all_eq_true, Bool.and_eq_true] at hok
+    intro c hc
+    exact (hok c hc).2
+  have hinv := map_swapChar_invol da db ca cb hca hcb
+  obtain ⟨n1, n2⟩ := not_word_of_distinct bc.toList (swapChar da db) hall
+  unfold isWord
+  simp only [Bool.or_eq_false_iff, beq_eq_false_iff_ne, ne_eq]
+  constructor
+  · intro h
+    apply n1
+    have := congrArg String.toList h
+    rw [String.toList_ofList] at this
+    rw [← this, hinv]
+  · intro h
+    apply n2
+    have := congrArg String.toList h
+    rw [String.toList_ofList] at this
+    rw [← this, hinv]
+
+theorem isWord_false_of {bc : String} (w1 : bc ≠ "neumann") (w2 : bc ≠ "dirichlet") : isWord bc = false := by
+  unfold isWord; simp [w1, w2]
+
+/-- on a word or an empty `bc` no axis is periodic (repo fix 61bf94db) -/
+theorem periodic_false_of_noswap_word (f : Fld) (x : Nat)
+    (h : f.mesh.bc = "neumann" ∨ f.mesh.bc = "dirichlet" ∨ f.mesh.bc = "") : periodic f x = false := by
+  rw [periodic_eq_perL]
+  rcases h with h | h | h
+  · rw [h]; simp [isWord]
+  · rw [h]; simp [isWord]
+  · rw [h, perL_empty]; simp
+
+/-- periodicity after the turn: the two axes of the plane exchange it, every other axis keeps it
+(`hok`: the `bc` of `f` is one the mesh accepts — needed since repo fix 61bf94db to know that the
+exchanged `bc` is none of the words `neumann` / `dirichlet`) -/
+theorem periodic_turn (f R : Fld) (a b : Nat) (hd : DimsOk f) (hok : Mesh.bcOk f.mesh.region.dims f.mesh.bc = true)
+    (ha : a < f.mesh.ndim) (hb : b < f.mesh.ndim)
     (hab : a ≠ b) (ht : BcTurns f a b) (hdims : R.mesh.region.dims = f.mesh.region.dims)
     (hbc : R.mesh.bc = rotBc1 f.mesh.bc (f.mesh.region.dims.getD a "") (f.mesh.region.dims.getD b "")) :
     periodic R a = periodic f b ∧ periodic R b = periodic f a ∧
     ∀ e, e < f.mesh.ndim → e ≠ a → e ≠ b → periodic R e = periodic f e := by
   have hne := dims_ne_of_ne f hd a b ha hb hab
-  simp only [periodic_eq_perL, hdims, hbc]
-  unfold rotBc1
-  by_cases hsw : (!(f.mesh.bc == "neumann" || f.mesh.bc == "dirichlet" || f.mesh.bc == "")
-      && (f.mesh.region.dims.getD a "").toList.length == 1 && (f.mesh.region.dims.getD b "").toList.length == 1) = true
-  · rw [if_pos hsw]
-    simp only [Bool.and_eq_true, beq_iff_eq] at hsw
-    obtain ⟨ca, hca⟩ := single_of_length _ hsw.1.2
-    obtain ⟨cb, hcb⟩ := single_of_length _ hsw.2
+  by_cases hsw : swapCond f.mesh.bc (f.mesh.region.dims.getD a "") (f.mesh.region.dims.getD b "") = true
+  · obtain ⟨w1, w2, _, s1, s2, _, _⟩ := swapCond_parts hsw
+    have hw := swapped_not_word _ _ _ _ hok hsw
+    have hw0 := isWord_false_of w1 w2
+    simp only [periodic_eq_perL, hdims, hbc, rotBc1_swap _ _ _ hsw, hw, hw0, Bool.not_false, Bool.true_and]
+    obtain ⟨ca, hca⟩ := single_of_length _ s1
+    obtain ⟨cb, hcb⟩ := single_of_length _ s2
     have hcne : ca ≠ cb := by
       intro e; apply hne; rw [← String.toList_inj, hca, hcb, e]
     refine ⟨?_, ?_, ?_⟩
@@ -159,19 +281,19 @@ theorem periodic_turn (f R : Fld) (a b : Nat) (hd : DimsOk f) (ha : a < f.mesh.n
       have n1 := dims_ne_of_ne f hd e a he ha hea
       have n2 := dims_ne_of_ne f hd e b he hb heb
       rw [if_neg n1, if_neg n2]
-  · rw [if_neg hsw]
-    refine ⟨?_, ?_, fun _ _ _ _ => rfl⟩
+  · have hR : ∀ x, periodic R x = periodic f x := by
+      intro x; unfold periodic; rw [hdims, hbc, rotBc1_noswap _ _ _ hsw]
+    refine ⟨?_, ?_, fun e _ _ _ => hR e⟩
     all_goals
-      rcases ht with ⟨s1, s2, w1, w2⟩ | hp
-      · -- no swap although both names are single characters and bc is no word: bc is empty
-        have hempty : f.mesh.bc = "" := by
-          by_contra hne'
-          apply hsw
-          simp only [Bool.and_eq_true, Bool.not_eq_true', Bool.or_eq_false_iff, beq_eq_false_iff_ne, beq_iff_eq, ne_eq]
-          exact ⟨⟨⟨⟨w1, w2⟩, hne'⟩, s1⟩, s2⟩
-        rw [hempty, perL_empty, perL_empty]
-      · rw [periodic_eq_perL, periodic_eq_perL] at hp
-        first | exact hp | exact hp.symm
+      rw [hR]
+      rcases ht with ⟨s1, s2, l1, l2⟩ | hp
+      · -- no exchange although both names are single lower-case characters: bc is a word or empty, nothing is periodic
+        have hword : f.mesh.bc = "neumann" ∨ f.mesh.bc = "dirichlet" ∨ f.mesh.bc = "" := by
+          by_contra hc
+          simp only [not_or] at hc
+          exact hsw (swapCond_of hc.1 hc.2.1 hc.2.2 s1 s2 l1 l2)
+        rw [periodic_false_of_noswap_word f _ hword, periodic_false_of_noswap_word f _ hword]
+      · first | exact hp | exact hp.symm
 
 theorem rotMesh_ok (f : Fld) (m' : Mesh) (a b : Nat) (wf : MeshWf f) (ha : a < f.mesh.ndim) (hb : b < f.mesh.ndim)
     (hab : a ≠ b)
@@ -249,7 +371,7 @@ theorem isRot90_of_mesh (f R : Fld) (a b : Nat) (wf : MeshWf f) (tw : TurnWf f a
     (hab : a ≠ b) (hm : rotMesh f.mesh (f.mesh.region.dims.getD a "") (f.mesh.region.dims.getD b "") = .ok R.mesh)
     (hv : R.valid = rot90Arr f.valid a b) (hn : R.nvdim = f.nvdim) : IsRot90 f R a b := by
   obtain ⟨m1, m2, m3, m4, m5⟩ := rotMesh_ok f R.mesh a b wf ha hb hab tw.bc_lower hm
-  obtain ⟨pa, pb, pe⟩ := periodic_turn f R a b wf.dims ha hb hab tw.turns m3 m2
+  obtain ⟨pa, pb, pe⟩ := periodic_turn f R a b wf.dims wf.bc_ok ha hb hab tw.turns m3 m2
   have na : R.mesh.nAt a = f.mesh.nAt b := by
     unfold Mesh.nAt; rw [m1, swapAt_getD_left _ _ _ _ hab (by rw [wf.n_len]; exact ha)]; rfl
   have nb : R.mesh.nAt b = f.mesh.nAt a := by
@@ -780,13 +902,52 @@ theorem grad_len {f g : Fld} (hnd : 2 ≤ f.mesh.region.dims.length) (h : grad f
         simp only [stack] at h
         exact stackGo_len ds' d0 g (by intro he; subst he; simp at l; omega) h
 
-theorem posVdims_nodup (n : Nat) (h2 : 2 ≤ n) (h4 : n ≤ 4) :
+/-- `Nat.repr` (decimal digits) is one-to-one: the digits give the number back -/
+theorem natRepr_inj {n m : Nat} (h : n.repr = m.repr) : n = m := by
+  have h' : Nat.toDigits 10 n = Nat.toDigits 10 m := by
+    rw [← Nat.toList_repr, ← Nat.toList_repr, h]
+  have := congrArg (fun l => Nat.ofDigitChars 10 l 0) h'
+  simpa [Nat.ofDigitChars_ten_toDigits] using this
+
+/-- the default labels `f"v{i}"` of fields with more than three components are pairwise different -/
+theorem vlabel_inj {n m : Nat} (h : s!"v{n}" = s!"v{m}") : n = m := by
+  have h' : toString "v" ++ toString n = toString "v" ++ toString m := h
+  rw [String.append_right_inj] at h'
+  exact natRepr_inj h'
+
+theorem hasDup_map_inj (g : Nat → String) (hg : ∀ n m, g n = g m → n = m) :
+    ∀ (l : List Nat), l.Nodup → hasDup (l.map g) = false := by
+  intro l
+  induction l with
+  | nil => intro _; rfl
+  | cons x xs ih =>
+    intro hn
+    rw [List.nodup_cons] at hn
+    simp only [List.map_cons, hasDup, Bool.or_eq_false_iff]
+    refine ⟨?_, ih hn.2⟩
+    rw [← Bool.not_eq_true]
+    intro hc
+    rw [List.contains_iff_mem] at hc
+    obtain ⟨y, hy, hxy⟩ := List.mem_map.mp hc
+    have := hg _ _ hxy
+    subst this
+    exact hn.1 hy
+
+/-- the positional default labels of an `n`-component field (`x, y[, z]` up to three components,
+`v0 … v(n-1)` beyond — the general rule of the `vdims` setter) exist, are `n` many and pairwise
+different, for EVERY `n ≥ 2` -/
+theorem posVdims_nodup (n : Nat) (h2 : 2 ≤ n) :
     ∃ labels, posVdims n = some labels ∧ labels.length = n ∧ hasDup labels = false := by
-  have : n = 2 ∨ n = 3 ∨ n = 4 := by omega
-  rcases this with rfl | rfl | rfl
-  · exact ⟨["x", "y"], by decide, rfl, by decide⟩
-  · exact ⟨["x", "y", "z"], by decide, rfl, by decide⟩
-  · exact ⟨["v0", "v1", "v2", "v3"], by decide, rfl, by decide⟩
+  by_cases h3 : n ≤ 3
+  · have : n = 2 ∨ n = 3 := by omega
+    rcases this with rfl | rfl
+    · exact ⟨["x", "y"], by decide, rfl, by decide⟩
+    · exact ⟨["x", "y", "z"], by decide, rfl, by decide⟩
+  · refine ⟨(List.range n).map fun i => s!"v{i}", ?_, by simp, ?_⟩
+    · unfold posVdims Fld.defaultVdims
+      have h1 : ¬ (n = 1) := by omega
+      simp only [h1, h3, if_false]
+    · exact hasDup_map_inj _ (fun _ _ h => vlabel_inj h) _ List.nodup_range
 
 theorem div_shape {f g : Fld} (h : div f = .ok g) : g.data.shape = f.data.shape := by
   unfold div at h
